@@ -373,6 +373,19 @@ impl Xot {
     /// # Ok::<(), xot::Error>(())
     /// ```
     pub fn insert_after(&mut self, reference_node: Node, new_sibling: Node) -> Result<(), Error> {
+        // siblings of attribute and namespace nodes are managed through the
+        // attribute and namespace maps; an ordinary node placed next to one
+        // would end up among them
+        if !self.value(reference_node).is_normal() {
+            return Err(Error::InvalidOperation(
+                "Cannot insert a sibling next to an attribute or namespace node".to_string(),
+            ));
+        }
+        if reference_node == new_sibling {
+            return Err(Error::InvalidOperation(
+                "Cannot insert a node next to itself".to_string(),
+            ));
+        }
         self.add_structure_check(self.parent(reference_node), new_sibling)?;
         self.remove_consolidate_text_nodes(
             self.previous_sibling(new_sibling),
@@ -393,6 +406,19 @@ impl Xot {
 
     /// Insert a new sibling before a reference node.
     pub fn insert_before(&mut self, reference_node: Node, new_sibling: Node) -> Result<(), Error> {
+        // siblings of attribute and namespace nodes are managed through the
+        // attribute and namespace maps; an ordinary node placed next to one
+        // would end up among them
+        if !self.value(reference_node).is_normal() {
+            return Err(Error::InvalidOperation(
+                "Cannot insert a sibling next to an attribute or namespace node".to_string(),
+            ));
+        }
+        if reference_node == new_sibling {
+            return Err(Error::InvalidOperation(
+                "Cannot insert a node next to itself".to_string(),
+            ));
+        }
         self.add_structure_check(self.parent(reference_node), new_sibling)?;
         self.remove_consolidate_text_nodes(
             self.previous_sibling(new_sibling),
